@@ -4,13 +4,13 @@
 # stays untouched while something else is using it.
 set -u
 PATCH=$1; shift
-A=/tmp/cleanrepo
+A=${ALT:-/tmp/cleanrepo}
 [ -d $A ] || git -C /repo worktree add -q --detach $A HEAD || exit 2
 cd $A && git checkout -q -- . && git apply "$PATCH" || { echo "patch does not apply"; exit 2; }
-trap 'git -C /tmp/cleanrepo checkout -q -- .' EXIT
+trap "git -C $A checkout -q -- ." EXIT
 cd /verif
 for c in "$@"; do
-  out=$(VERIF_REPO_DIR=$A VERIF_EVIDENCE_DIR=/verif/.scratch/evidence-trials-alt VERIF_SEED=${VERIF_SEED:-1} ./check "$c" ${TIER:-quick} 2>&1 | grep -v '^CASE')
+  out=$(VERIF_REPO_DIR=$A VERIF_EVIDENCE_DIR=/verif/.scratch/evidence-trials-alt$(basename $A) VERIF_SEED=${VERIF_SEED:-1} ./check "$c" ${TIER:-quick} 2>&1 | grep -v '^CASE')
   echo "== $c: $(echo "$out" | grep -c '^VIOLATION') violation line(s)"
   echo "$out" | grep -E "violation signature|^BROKEN" | sort | uniq -c | head -8
 done
